@@ -332,7 +332,7 @@ def to_iter(it, v, st):
     """IntoIterator: a sequence / array / range / option becomes an iterator value; iterators stay."""
     if isinstance(v, Ref):
         t = it.read_ref(st, v)
-        if is_iter(t) or (isinstance(t, Agg) and t.kind == "adt" and not is_opt(t) and t.path != "std::ops::Range"):
+        if is_iter(t) or (isinstance(t, Agg) and t.kind == "adt" and not is_opt(t) and t.path not in ("std::ops::Range", "std::ops::RangeFrom")):
             return v  # iterate through the borrow
         v = t
     if is_iter(v):
@@ -343,6 +343,9 @@ def to_iter(it, v, st):
         return it_list(v.fields)
     if isinstance(v, Agg) and v.path in ("std::ops::Range",):
         return it_adapt("range", v.field(0), v.field(1))
+    if isinstance(v, Agg) and v.path == "std::ops::RangeFrom":
+        # `lo..`: counts upwards for ever (an adaptor such as take_while ends it)
+        return it_adapt("range", v.field(0), Const(2 ** 64))
     if is_opt(v):
         return it_adapt("once", v.field(0) if v.vi == 1 else NONE)
     return None
@@ -453,8 +456,8 @@ def _call(it, name, args, st):
         # receiver passed by value (adaptors) or by &mut (next / consumers)
         target = recv if isinstance(recv, Ref) else a0
         tv = _norm_iter(a0)
-        if isinstance(tv, Agg) and tv.path == "std::ops::Range":
-            tv = it_adapt("range", tv.field(0), tv.field(1))
+        if isinstance(tv, Agg) and tv.path in ("std::ops::Range", "std::ops::RangeFrom"):
+            tv = it_adapt("range", tv.field(0), tv.field(1) if tv.path == "std::ops::Range" else Const(2 ** 64))
             if isinstance(recv, Ref):
                 st = it.write_ref(st, recv, tv)
         known = is_iter(tv) or isinstance(tv, Ref) or (isinstance(tv, Agg) and tv.kind == "adt" and (
